@@ -45,6 +45,15 @@ def full_stage(chk, pid, tier, seed):
             opts["constraints"]["disable"]["start_time_windows"] = False
             meta["t%d" % i] = (inp, opts)
             blocks.append(("t%d" % i, GF.case_lines(inp, opts, {"iterations": 60, "duration_ms": 2500, "runs": 1, "starts": 1, "output": 2})))
+    if pid == "C01":
+        # alternates that carry quantities, listed by several vehicles (each vehicle gets its own copy of an alternate)
+        for i in range(80 if tier == "quick" else 2500):
+            inp, opts, feats = GF.gen_full(rng, "small" if i % 3 else "medium",
+                                           force={"alternates": True, "capacity": True, "alt_quantity_p": 0.9, "alt_vehicle_p": 0.9, "mixing": False})
+            opts["constraints"]["disable"]["capacity"] = False
+            opts["constraints"]["disable"]["capacities"] = []
+            meta["t%d" % i] = (inp, opts)
+            blocks.append(("t%d" % i, GF.case_lines(inp, opts, {"iterations": 60, "duration_ms": 2500, "runs": 1, "starts": 1, "output": 2})))
     if pid == "C03":
         # relations declared from the successor's side (succeeds), most of them direct, in chains and in DAGs
         for i in range(80 if tier == "quick" else 2500):
